@@ -90,7 +90,9 @@ def driver_events(n_traces, n_ops, seed):
                 elif op == "setitem_multi":
                     x[ri()] = elems.inject(cname, [nid, nid + 1])
                 elif op == "extend_wrong":
-                    x.extend(elems.inject(elems.WRONG[cname], [nid, nid + 1]))
+                    w = rng.randrange(3)
+                    x.extend(elems.inject(elems.WRONG[cname], [nid, nid + 1]) if w == 0 else elems.inject(elems.WRONG[cname], []) if w == 1
+                             else [elems.inject(cname, [nid]), elems.inject(elems.WRONG[cname], [nid + 1])])
             except Exception:  # noqa: BLE001  the recorder has logged it
                 pass
     rec.enabled = False
